@@ -31,10 +31,15 @@ func (kv *kvPebble) Drop() error {
 		_ = iterator.Close()
 	}()
 
-	start, end := iterator.RangeBounds()
-	if pebble.DefaultComparer.Compare(start, end) >= 0 {
+	// the bounds of the keys held by the store (Iterator.RangeBounds is about range keys, and yields nothing here)
+	if !iterator.First() {
 		return nil
 	}
+	start := append([]byte(nil), iterator.Key()...)
+	if !iterator.Last() {
+		return nil
+	}
+	end := append([]byte(nil), iterator.Key()...)
 
 	if err := kv.DB.DeleteRange(start, end, &pebble.WriteOptions{Sync: false}); err != nil {
 		return err
